@@ -167,7 +167,8 @@ def render_file(inp, wd, stem):
             body.append(ter)
         else:
             body[-1] += ter
-        head = ["; a comment", "; this is %s" % inp["kind"], "title"]
+        # the title line is part of the abstract input (arbitrary, mandatory; it never ends in 1 / 2)
+        head = ["; a comment", "; this is %s" % inp["kind"], "".join(_seq(inp.get("title")) or "title")]
     else:
         raise ValueError(fmt)
     text = "\n".join(head + body) + ("\n" if inp["nl"] else "")
@@ -187,10 +188,34 @@ def render_json(inp, wd, stem):
     return p, text
 
 
+def render_itp(nm, d):
+    """a -from_file macro as a polyply .itp block: one BB bead per residue (every second residue also a side chain bead),
+    residue numbers as given by the abstract input (they need not start at 1 nor be contiguous), BB-BB bonds where the
+    abstract input bonds two residues"""
+    atoms, bonds, bb = [], [], {}
+    k = 0
+    for p, (name, rid) in enumerate(zip(d["names"], d["resids"]), start=1):
+        k += 1
+        bb[p] = k
+        atoms.append("%d P1 %d %s BB %d 0.0" % (k, rid, name, k))
+        if p % 2 == 0:
+            k += 1
+            atoms.append("%d C1 %d %s SC1 %d 0.0" % (k, rid, name, k))
+            bonds.append("%d %d 1 0.30 5000" % (bb[p], k))
+    for a, b in _seq(d["bonds"]):
+        bonds.append("%d %d 1 0.35 1250" % (bb[a], bb[b]))
+    return "[ moleculetype ]\nblk%s 1\n\n[ atoms ]\n%s\n\n[ bonds ]\n%s\n" % (nm, "\n".join(atoms), "\n".join(bonds))
+
+
 def genseq_args(inp):
-    """abstract gen_seq input -> keyword arguments of polyply.gen_seq (strings as on the command line)"""
-    macro_strings = []
+    """abstract gen_seq input -> keyword arguments of polyply.gen_seq (strings as on the command line); macros of kind
+    "file" become -from_file TAG:block entries plus the text of the .itp files (key "itp")"""
+    macro_strings, from_file, itp = [], [], {}
     for x, (nm, d) in enumerate(sorted(inp["defs"].items())):
+        if d.get("kind") == "file":
+            from_file.append("%s:blk%s" % (nm, nm))
+            itp[nm] = render_itp(nm, d)
+            continue
         res = "%s-1.0" % d["res"] if x % 2 == 0 else "ZZ-0.0,%s-1.0" % d["res"]      # a residue mix with probability 1
         macro_strings.append("%s:%d:%d:%s" % (nm, d["lev"], d["br"], res))
     connects = ["%d:%d:%s" % (c["i"], c["j"], ",".join("%d-%d" % (a, b) for a, b in c["pairs"])) for c in _seq(inp["connects"])]
@@ -198,7 +223,10 @@ def genseq_args(inp):
     tags = []
     for x, t in enumerate(_seq(inp["labels"])):
         tags.append("%d:%s:%s-1.0" % (t["i"], t["key"], t["val"]) if x % 2 == 0 else "%d:%s:zz-0.0,%s-1.0" % (t["i"], t["key"], t["val"]))
-    return {"seq": list(inp["seq"]), "macro_strings": macro_strings, "connects": connects, "modifications": mods, "tags": tags}
+    out = {"seq": list(inp["seq"]), "macro_strings": macro_strings, "connects": connects, "modifications": mods, "tags": tags}
+    if from_file:
+        out["from_file"], out["itp"] = from_file, itp
+    return out
 
 
 # ------------------------------------------------------------------ running the real code
@@ -290,11 +318,17 @@ def run_genseq(inp, wd, stem):
     out = Path(wd) / ("%s.json" % stem)
     if out.exists():
         out.unlink()
+    inpath = []
+    for nm, text in sorted(args.get("itp", {}).items()):
+        f = Path(wd) / ("%s_%s.itp" % (stem, nm))
+        f.write_text(text)
+        inpath.append(f)
     gs.nx = _NxProxy(saved[0], rec)
     gs._add_edges, gs._apply_termini_modifications, gs._tag_nodes = add_edges, mod_ter, tag_nodes
     try:
         try:
-            gs.gen_seq("test", out, args["seq"], macro_strings=args["macro_strings"], connects=args["connects"],
+            gs.gen_seq("test", out, args["seq"], inpath=inpath, macro_strings=args["macro_strings"],
+                       from_file=args.get("from_file"), connects=args["connects"],
                        modifications=args["modifications"], tags=args["tags"])
         finally:
             gs.nx, gs._add_edges, gs._apply_termini_modifications, gs._tag_nodes = saved
